@@ -15,6 +15,9 @@ class SerializerInitializationError(Exception):
 
 
 class Serializer(ABC):
+    # Whether the serializer works with binary files (otherwise with utf-8 text files)
+    is_binary: t.ClassVar[bool]
+
     @abstractmethod
     def dump(self, obj: SerializableObjectT, fp: t.IO) -> None:
         ...
@@ -29,6 +32,8 @@ class Serializer(ABC):
 
 
 class PickleSerializer(Serializer):
+    is_binary = True
+
     def dump(self, obj: SerializableObjectT, fp: t.IO) -> None:
         pickle.dump(obj, fp)
         fp.seek(0)
@@ -42,6 +47,8 @@ class PickleSerializer(Serializer):
 
 
 class JSONSerializer(Serializer):
+    is_binary = False
+
     def dump(self, obj: SerializableObjectT, fp: t.IO) -> None:
         json.dump(obj, fp, indent=4, ensure_ascii=False)
         fp.seek(0)
